@@ -13,6 +13,8 @@ mod c11;
 mod c06;
 #[cfg(feature = "nightly")]
 mod prot;
+#[cfg(feature = "nightly")]
+mod c20;
 
 #[global_allocator]
 static GLOBAL: c04::Counting = c04::Counting;
@@ -48,6 +50,8 @@ fn main() {
         "C15" => prot::run_c15(&mut out, tier, seed),
         #[cfg(feature = "nightly")]
         "C19" => prot::run_c19(&mut out, tier, seed),
+        #[cfg(feature = "nightly")]
+        "C20" => c20::run(&mut out, tier, seed),
         _ => { eprintln!("unknown property {}", prop); std::process::exit(2); }
     }
     out.finish(prop, tier, seed);
